@@ -439,8 +439,8 @@ class PLSSParser:
 
         for chunk in self.blocks:
             chunk_layout = None
-            if self.layout == COPY_ALL:
-                chunk_layout = COPY_ALL
+            if self.layout == COPY_ALL or self.mandate_layout:
+                chunk_layout = self.layout
             # This automatically unpacks the relevant data into the PLSSParser's
             # attributes (tract_components, flags, unused_components).
             ChunkParser(chunk, layout=chunk_layout, parent=self)
